@@ -9,7 +9,7 @@ use core::arch::x86_64::*;
 
 /// SSE empowered implementation that will only work on `x86_64` with sse 4.1 enabled at the CPU
 /// level.
-#[derive(Debug, Default, Clone)]
+#[derive(Debug, Clone)]
 pub struct SseHash {
     v0L: V2x64U,
     v0H: V2x64U,
@@ -71,6 +71,12 @@ impl HighwayHash for SseHash {
             buffer: self.buffer,
         }
         .checkpoint()
+    }
+}
+
+impl Default for SseHash {
+    fn default() -> Self {
+        unsafe { Self::force_new(Key::default()) }
     }
 }
 
